@@ -398,3 +398,19 @@ func init() {
 	addMutant(Mutant{Name: "c33-emptytree-skips-presence", Property: "C33", File: "ygot/struct_validation_map.go",
 		Old: "\t\t\tpVal := reflect.New(fType.Type.Elem())\n\t\t\tinitialiseTree(pVal.Elem().Type(), pVal.Elem())", New: "\t\t\tif util.IsYangPresence(fType) {\n\t\t\t\tcontinue\n\t\t\t}\n\t\t\tpVal := reflect.New(fType.Type.Elem())\n\t\t\tinitialiseTree(pVal.Elem().Type(), pVal.Elem())", Expect: "initialiseTree:create#1:conditions"})
 }
+
+func init() {
+	// rules added after the seventh seed batch
+	addMutant(Mutant{Name: "c02-orderedlist-empty-key-as-missing", Property: "C02", File: "ytypes/node.go",
+		Old: "\t\tif pathKey, ok := path.GetElem()[0].GetKey()[schema.Key]; ok {\n\t\t\tpathKeyVals[schema.Key] = pathKey", New: "\t\tif pathKey := path.GetElem()[0].GetKey()[schema.Key]; pathKey != \"\" {\n\t\t\tpathKeyVals[schema.Key] = pathKey", Expect: "retrieveNodeOrderedList:key-lookup"})
+	addMutant(Mutant{Name: "c02-parseint-for-unsigned", Property: "C02", File: "ytypes/util_types.go",
+		Old: "\t\tu, err := strconv.ParseUint(s, 10, int(t.Size())*8)\n\t\tif err != nil {\n\t\t\treturn reflect.ValueOf(nil), fmt.Errorf(\"unable to convert %q to %v\", s, t.Kind())\n\t\t}\n\t\t// Although Convert can panic, we know that the type is an unsigned", New: "\t\tu, err := strconv.ParseInt(s, 10, 64)\n\t\tif err != nil || u < 0 {\n\t\t\treturn reflect.ValueOf(nil), fmt.Errorf(\"unable to convert %q to %v\", s, t.Kind())\n\t\t}\n\t\t// Although Convert can panic, we know that the type is an unsigned", Expect: "StringToType:kind-switch"})
+	addMutant(Mutant{Name: "c29-relpath-by-name-search", Property: "C29", File: "ygen/directory.go",
+		Old: "\treturn fieldSlicePath[len(parent.Path)-1:], fieldSliceModules[len(parent.Path)-1:], nil", New: "\tidx := len(parent.Path) - 1\n\tfor i, e := range fieldSlicePath {\n\t\tif i > 0 && e == parent.Path[len(parent.Path)-1] {\n\t\t\tidx = i + 1\n\t\t\tbreak\n\t\t}\n\t}\n\treturn fieldSlicePath[idx:], fieldSliceModules[idx:], nil", Expect: "findSchemaPath:cut#"})
+	addMutant(Mutant{Name: "c01-base64-unpadded", Property: "C01", File: "ygot/struct_validation_map.go",
+		Old: "base64.NewEncoder(base64.StdEncoding, &b)", New: "base64.NewEncoder(base64.RawStdEncoding, &b)", Expect: "base64#RawStdEncoding"})
+	addMutant(Mutant{Name: "c31-generic-skips-empty-array", Property: "C31", File: "ytypes/unmarshal.go",
+		Old: "\tswitch {\n\tcase schema.IsLeaf():\n\t\treturn unmarshalLeaf(schema, parent, value, enc, opts...)", New: "\tif a, ok := value.([]interface{}); ok && len(a) == 0 && schema.IsLeafList() {\n\t\treturn nil\n\t}\n\tswitch {\n\tcase schema.IsLeaf():\n\t\treturn unmarshalLeaf(schema, parent, value, enc, opts...)", Expect: "unmarshalGeneric:return#"})
+	addMutant(Mutant{Name: "c34-keys-named-apart-from-fields", Property: "C34", File: "gogen/unordered_list.go",
+		Old: "\t\tgenutil.MakeNameUnique(listElem.Fields[fName].Name, usedFieldNames)\n", New: "\t\t_ = listElem.Fields[fName].Name\n", Expect: "key-field#1:name"})
+}
